@@ -8,6 +8,19 @@ correspondence : every hierarchy a real constructor returns is compared with the
                  `c04_levelize` vs `levelize_strength_or_aggregation`, exact;
                  `c04_check` = the proved checker `checkHier` (shapes, strict decrease, A_c = R A P entrywise to
                  1e-10 |R||A||P|, R = P^T / P^H) on the exact rational values of small real hierarchies.
+                 `c04x_check` (extension E50) = the same checker with the dense products computed over the non-zeros of the
+                 left factor (`C04X.checkHierS`, proved equal to `checkHier`: check_hier_fast_same), which makes hierarchies
+                 with up to 150 unknowns affordable: run next to `c04_check` on the small ones, alone on the larger ones
+                 (as far as a deterministic budget of estimated Lean time reaches: quick 12 s / <= 96 unknowns, thorough 200 s /
+                 <= 150), on every `adaptive_sa_solver` hierarchy and on every `MultilevelSolver(levels)` built by hand
+                 without R (coarse matrices formed here as P^H A P, so the levels are Galerkin iff the solver fills in R = P^H).
+                 `c04x_checkf` (extension E50) = the proved checker for `air_solver(filter_operator=(lump, theta))`
+                 (`C04X.checkHierF`, check_hier_filtered_iff): the filtered deep copy of level 0 observed inside the real step
+                 against the C19 kernel model of `filter_matrix_rows` applied to the exact values of levels[0].A, A_1 = R_0 Af0 P_0,
+                 every coarse level a step was attempted on (filtered in place) = filter(R A P) -- dropped entries exactly zero,
+                 kept entries and lumped diagonals to 1e-10 of the entrywise bound --, an untouched last level = R A P; decisions
+                 within 1e-8 (plus the rounding bounds) of the threshold are skipped and counted; its verdict must agree with the
+                 NumPy oracle.
                  `ext_c04_step` (extension E13) = the model of the guard of each constructor's `_extend_hierarchy`
                  (all-C / all-F splitting, matrix filtered to a diagonal, P.shape[1] >= P.shape[0]) fed with the numbers
                  traced INSIDE every real step (the splitting the step computed, nnz of the filtered matrix, the shapes
@@ -58,15 +71,26 @@ META = {
             '(object shared with the library) or CSC / dense (converted copy), per call a fresh symmetry flag (hermitian / omitted = '
             'default / symmetric / nonsymmetric), option set, limits and keep, a quarter of the later calls repeat an earlier one with '
             'its option objects and other scalars; each call of a history counts as a case (distinct = the call and the calls before it)',
-    'search_only': ['hierarchies with more than 24 unknowns on the finest level, float32 hierarchies and AIR hierarchies with filtering: shapes, '
-                    'Galerkin product, R = P^T / P^H are judged by the NumPy oracle only (the proved checker `checkHier` runs on the others)',
+    'search_only': ['float32 hierarchies, and those hierarchies with more than 24 unknowns on the finest level that the budget of the proved '
+                    'checker does not reach (quick: <= 96 unknowns and 12 s of estimated Lean time, thorough: <= 150 unknowns and 200 s, '
+                    'spread evenly over the run; feature lean-big-skipped-budget): shapes, Galerkin product, R = P^T / P^H are judged by the '
+                    'NumPy oracle only (the proved checker `checkHier`, in its fast form `checkHierS`, runs on the others)',
                     'finest level = the user\'s values and the user\'s matrix object left untouched: NumPy oracle',
-                    'AIR filtering: Galerkin product with the filtered matrix on level 0, in-place filtered coarse levels compared with the '
-                    'definition of the row filter (decisions within 1e-8 of the threshold may go either way): NumPy oracle',
+                    'AIR filtering: the proved checker `checkHierF` takes the filtered copy of level 0 from a trace inside the real step '
+                    '(an AIR hierarchy of one level has none and is checked as a plain level); filter decisions within 1e-8 of the threshold '
+                    '(plus the rounding bounds of the two entries) are skipped by it (near_threshold_skipped) and, with lumping, the diagonal '
+                    'entry of a row with such a decision -- those entries are judged by the NumPy oracle only (either decision accepted); '
+                    'that the real `filter_matrix_rows` (tocsr, amg_core kernel, eliminate_zeros, write-back to BSR) computes what the C19 kernel '
+                    'model computes is observed, not proved: exact comparison on dyadic CSR / BSR data with frequent ties (`c04x_filter`) and '
+                    'on every filtered level of every such hierarchy; proved: the kernel model on a stored row without duplicate columns and on '
+                    'the dense row (`filterMat`, what the checker uses) have the same dense meaning, the definition of the filter '
+                    '(filter_stored_vs_dense, filter_dense_definition)',
                     'legitimacy of a stall: the outcome of the step on the last level is recomputed from the public strength / splitting / '
                     'aggregation routines with the NumPy random state recorded at the entry of the real step; the loop theorems take the '
                     'step outcomes as input',
-                    'adaptive_sa_solver and MultilevelSolver(levels) without R (default R = P^H): NumPy oracle only',
+                    'adaptive_sa_solver: the limits (max_levels / max_coarse, known finding adaptive-ignores-limits) and the finest level are '
+                    'judged by the NumPy oracle only; shapes, strict decrease, Galerkin product and R = P^H / P^T also by the proved checker. '
+                    'MultilevelSolver(levels) without R: R = P^H by NumPy and by the proved checker (transpose and Galerkin clauses)',
                     'that the real `R @ A @ P`, `P.T.tocsr()`, `.conjugate()` of scipy.sparse compute what the proved model of them '
                     '(Model/ExtSpmm.lean: spmm_product, spmm_transpose, spmm_galerkin) computes is observed, not proved: exact comparison of '
                     'dense meanings on the level operators of every third (thorough tier: fourth) small hierarchy, values snapped to a '
@@ -609,6 +633,8 @@ def traced(ctor):
                         rec['inner']['split'] = np.array(out).copy()        # nested calls: the outermost returns last
                     elif kind == 'filter':
                         rec['inner']['nnz'] = int(a[0].nnz)                 # filtered in place
+                        if rec['nlev'] == 1:
+                            rec['inner']['Af'] = a[0].copy()                # level 0: the filtered deep copy the step works with
                     elif kind == 'fit':
                         rec['inner'].setdefault('fit', (int(a[0].shape[1]), int(np.asarray(a[1]).shape[1])))
                     elif kind == 'pw':
@@ -1183,6 +1209,46 @@ def enc_mat(M):
     return f'{r}:{c}:' + enc_list(M.reshape(-1), f)
 
 
+def enc_mat_fast(M):
+    """`enc_mat` without Fraction objects (same text): hierarchies beyond 24 unknowns have 10^4 entries"""
+    M = np.asarray(M)
+    r, c = M.shape
+    return f'{r}:{c}:' + sp_vals(M)
+
+
+def hier_tokens(levels):
+    """`A0 P0 R0 A1 ... Ak` as the checker ops read them"""
+    toks = []
+    m = len(levels)
+    for l, L in enumerate(levels):
+        toks.append(enc_mat_fast(dense(L.A)))
+        if l < m - 1:
+            toks.append(enc_mat_fast(dense(L.P)))
+            toks.append(enc_mat_fast(dense(L.R)))
+    return toks
+
+
+LEAN_TOL = '1/10000000000'
+LEAN_SLACK = '1/100000000'
+
+
+def lean_big_ok(ctx, rows):
+    """extension E50: hierarchies with more than LEAN_NMAX unknowns go through the proved checker as far as a budget of
+    estimated Lean + encoding time allows (4e-5 s per entry of the level matrices, measured), spread evenly over the run;
+    deterministic (no clock).  Replays and deep searches check everything."""
+    if rows[0] > ctx.scale(96, 150):
+        return False
+    if ctx.deep or ctx.replay_case is not None:
+        return True
+    st = ctx.__dict__.setdefault('_c04x', {'spent': 0.0, 'frac': 1.0})
+    cost = 4e-5 * sum(r * r for r in rows) + 0.002
+    if st['spent'] + cost > ctx.scale(12.0, 200.0) * st['frac']:
+        ctx.feat('lean-big-skipped-budget')
+        return False
+    st['spent'] += cost
+    return True
+
+
 def step_token(ctor, rec):
     """the numbers the guard of the real step read (traced inside the step), encoded for `ext_c04_step`; None = the step
     did not get as far as computing them"""
@@ -1337,24 +1403,42 @@ def eval_case(ctx, case, pending, shared=None):
     # ---- Lean: the guards of the steps on the numbers traced inside the real steps
     if calls is not None:
         queue_steps(ctx, case, ml, calls, info, ML, MC, reason, real_calls, pending, viol)
-    # ---- Lean: the proved checker on small hierarchies
-    if rows[0] <= LEAN_NMAX and info.get('tol', 1) <= 1e-10 and all(hasattr(L, 'P') and hasattr(L, 'R') for L in ml.levels[:-1]):
+    # ---- Lean: the proved checker (extension E50: any size within the budget, AIR with filtering)
+    small = rows[0] <= LEAN_NMAX
+    if info.get('tol', 1) <= 1e-10 and all(hasattr(L, 'P') and hasattr(L, 'R') for L in ml.levels[:-1]) and \
+            (small or lean_big_ok(ctx, rows)):
         fo = kw.get('filter_operator') if ctor == 'air' else None
+        structural = [b for b in bad if b[0] in ('dims', 'transpose', 'galerkin', 'decrease', 'empty-level')]
+        want = 'ok' if not structural else 'fail'
         if not (fo is not None and fo[1] != 0):
-            toks = []
-            for l, L in enumerate(ml.levels):
-                toks.append(enc_mat(dense(L.A)))
-                if l < m - 1:
-                    toks.append(enc_mat(dense(L.P)))
-                    toks.append(enc_mat(dense(L.R)))
-            structural = [b for b in bad if b[0] in ('dims', 'transpose', 'galerkin', 'decrease', 'empty-level')]
-            pending.append(('check', f'c04_check {info["sym"]} 1/10000000000 ' + ' '.join(toks),
-                            'ok' if not structural else 'fail', case, viol))
-            ctx.feat('lean-checked-hierarchy')
+            toks = ' '.join(hier_tokens(ml.levels))
+            if small:
+                pending.append(('check', f'c04_check {info["sym"]} {LEAN_TOL} ' + toks, want, case, viol))
+            # the same checker with the product over the non-zeros (check_hier_fast_same)
+            pending.append(('check', f'c04x_check {info["sym"]} {LEAN_TOL} ' + toks, want, case, viol))
+            ctx.feat('lean-checked-hierarchy' + ('' if small else ':big'))
             # extension E27 on every third (thorough: fourth) of them, on all of them in a replay / deep search
-            if not any(b[0] in ('dims', 'empty-level') for b in bad) and \
+            if small and not any(b[0] in ('dims', 'empty-level') for b in bad) and \
                     (ctx.deep or ctx.replay_case is not None or ctx.evaluations % ctx.scale(3, 4) == 0):
                 queue_spmm(ctx, case, ml, info, bad, pending, viol)
+        else:
+            # AIR with filtering: the filtered copy of level 0 observed inside the real step, in-place filtered coarse levels
+            Af0 = next((c['inner'].get('Af') for c in (calls or []) if c['nlev'] == 1 and 'Af' in c.get('inner', {})), None)
+            if m == 1:
+                # nothing of the returned hierarchy depends on the filter: the plain checker on the single level
+                pending.append(('check', f'c04x_check {info["sym"]} {LEAN_TOL} ' + ' '.join(hier_tokens(ml.levels)), want, case, viol))
+                ctx.feat('lean-checked-hierarchy' + ('' if small else ':big'))
+            elif Af0 is None:
+                ctx.feat('lean-filtered:level0-copy-unobserved')
+            else:
+                attempted = set(c['nlev'] - 1 for c in calls)
+                flags = [int(l >= 1 and (l < m - 1 or l in attempted)) for l in range(m)]
+                toks = hier_tokens(ml.levels)
+                line = (f'c04x_checkf {info["sym"]} {LEAN_TOL} {enc_rat(float(fo[1]))} {int(bool(fo[0]))} {LEAN_SLACK} '
+                        f'{enc_ints(flags)} {toks[0]} {enc_mat_fast(dense(Af0))} ' + ' '.join(toks[1:])).rstrip()
+                pending.append(('checkf', line, want, case, viol))
+                ctx.feat('lean-checked-hierarchy:filtered' + ('' if small else ':big'))
+                ctx.feat(f'lean-filtered:inplace-levels:{min(sum(flags), 3)}')
     return result
 
 
@@ -1390,12 +1474,20 @@ def flush(ctx, pending):
         if what in ('xgal', 'xdy', 'xtr'):
             flush_spmm(ctx, what, line, impl, case, o)
             continue
-        if what == 'check':
+        if what in ('check', 'checkf'):
             # the proved checker and the NumPy oracle judge the same levels: they must agree
+            if what == 'checkf' and o.startswith('ok;'):
+                k = int(o[3:])
+                ctx.near_skipped += k
+                if k:
+                    ctx.feat('lean-filtered:near-threshold-skipped', k)
+                o = 'ok'
             lean_ok, numpy_ok = (o == 'ok'), (impl == 'ok')
             if lean_ok != numpy_ok:
-                ctx.corr('c04_check', {'line': line[:600], 'ctor': case['ctor']}, o, impl)
-                if numpy_ok:
+                ctx.corr(line.split(' ', 1)[0], {'line': line[:600], 'ctor': case['ctor']}, o, impl)
+                # `level0-filter`: the filtered copy observed inside the step on level 0 is not the model's filter of A0; the
+                # property speaks about the returned levels, which the oracle has just judged: correspondence only
+                if numpy_ok and o != 'fail:0:level0-filter':
                     viol(f'the proved hierarchy checker rejects the returned levels: {o}')
             continue
         if o != impl:
@@ -1432,7 +1524,48 @@ def levelize_correspondence(ctx):
                               {'levelize': repr(opt), 'ML': ML, 'MC': MC})
 
 
-def adaptive_case(ctx, rng):
+def filter_correspondence(ctx):
+    """extension E50: `C04X.filterMat` (the C19 kernel model applied to every dense row; the function `checkHierF` uses) against
+    the real `filter_matrix_rows(A, theta, diagonal=True, lump)` on CSR and BSR storage, exact: values in Z/8, theta dyadic,
+    so every float operation of the kernel is exact and ties `|a_ij| = theta |a_ii|` (kept) are frequent; zero and missing
+    diagonal entries included.  The reply also says whether `filterMat` equals the entrywise definition `filtDef`
+    (proved: filter_dense_definition)."""
+    from pyamg.util.utils import filter_matrix_rows
+    rng = ctx.np_rng
+    lines, impls = [], []
+    for _ in range(ctx.scale(60, 400)):
+        n = int(rng.integers(1, 10))
+        D = rng.integers(-16, 17, size=(n, n)) / 8.0 * (rng.random((n, n)) < float(pick(rng, [0.3, 0.6, 1.0])))
+        if rng.random() < 0.6:
+            D[np.arange(n), np.arange(n)] = rng.integers(1, 5, size=n) * float(pick(rng, [0.5, 1.0, 2.0])) * rng.choice([-1.0, 1.0], size=n)
+        if rng.random() < 0.3:
+            D[int(rng.integers(n)), :][int(rng.integers(n))] = 0.0
+            D[int(rng.integers(n)), int(rng.integers(n))] = 0.0
+            i = int(rng.integers(n))
+            D[i, i] = 0.0
+        theta = float(pick(rng, [0.125, 0.25, 0.5, 0.75, 0.0]))
+        lump = bool(rng.random() < 0.5)
+        bs = int(pick(rng, [b for b in (1, 1, 2, 3) if n % b == 0]))
+        A = make_input(D, 'bsr' if (bs > 1 or rng.random() < 0.2) else 'csr', bs)
+        try:
+            filter_matrix_rows(A, theta, diagonal=True, lump=lump)
+            impl = sp_dense_str(dense(A))
+        except Exception as ex:  # noqa: BLE001
+            impl = 'raised ' + type(ex).__name__
+        lines.append(f'c04x_filter {enc_rat(theta)} {int(lump)} {enc_mat_fast(D)}')
+        impls.append((impl, D, theta, lump, A.format, bs))
+    outs = lean_retry(ctx, lines)
+    for line, o, (impl, D, theta, lump, fmt, bs) in zip(lines, outs, impls):
+        ctx.case(key=_key(line), nontrivial=True)
+        ctx.feat(f'filter-kernel:{fmt}{bs if fmt == "bsr" else ""}:' + ('lump' if lump else 'plain'))
+        parts = o.split(';')
+        if len(parts) != 2 or parts[1] != 'same' or parts[0] != impl:
+            ctx.corr('c04x_filter', {'line': line[:600], 'format': fmt, 'bs': bs}, o[:400], impl[:400])
+        elif impl != sp_dense_str(D):
+            ctx.feat('filter-kernel:changed-something')
+
+
+def adaptive_case(ctx, rng, pending=None):
     """adaptive_sa_solver (search only): structure of the hierarchy it returns, limits as given by the user"""
     from pyamg.aggregation import adaptive_sa_solver
     # the symmetry flag decides R = P^H / P^T: real matrices cannot tell them apart, so two thirds of the cases are
@@ -1455,10 +1588,10 @@ def adaptive_case(ctx, rng):
     kw = {'num_candidates': int(pick(rng, [1, 2])), 'candidate_iters': 3, 'improvement_iters': int(pick(rng, [0, 1])),
           'max_levels': ML, 'max_coarse': MC, 'symmetry': sym,
           'smooth': pick(rng, [None, ('jacobi', {}), 'richardson']), 'keep': bool(rng.random() < 0.5)}
-    adaptive_eval(ctx, D, kw, int(rng.integers(2 ** 31)))
+    adaptive_eval(ctx, D, kw, int(rng.integers(2 ** 31)), pending)
 
 
-def adaptive_eval(ctx, D, kw, seed):
+def adaptive_eval(ctx, D, kw, seed, pending=None):
     from pyamg.aggregation import adaptive_sa_solver
     ML, MC = kw['max_levels'], kw['max_coarse']
     A = gen.int32csr(sp.csr_array(D))
@@ -1477,14 +1610,28 @@ def adaptive_eval(ctx, D, kw, seed):
     ctx.case(key=ckey, nontrivial=info.get('m', 1) >= 2)
     if info.get('nonfinite'):
         return
+    pcase = {'adaptive': True, 'A': pack(D), 'kw': pack(kw), 'seed': seed}
     for clause, text, _ in bad:
         fkey = 'adaptive-ignores-limits' if clause in ('max_levels', 'max_coarse') else None
-        ctx.violation(f'adaptive_sa_solver: {text} [clause {clause}; max_levels={ML}, max_coarse={MC}]',
-                      {'adaptive': True, 'A': pack(D), 'kw': pack(kw), 'seed': seed}, fkey=fkey)
+        ctx.violation(f'adaptive_sa_solver: {text} [clause {clause}; max_levels={ML}, max_coarse={MC}]', pcase, fkey=fkey)
+    # extension E50: the proved checker on what adaptive_sa_solver returned (shapes, strict decrease, Galerkin, R = P^H / P^T;
+    # the limits stay with the oracle above: known finding adaptive-ignores-limits)
+    if 'rows' in info and info.get('tol', 1) <= 1e-10 and all(hasattr(L, 'P') and hasattr(L, 'R') for L in ml.levels[:-1]):
+        structural = [b for b in bad if b[0] in ('dims', 'transpose', 'galerkin', 'decrease', 'empty-level')]
+        queue = pending if pending is not None else []
+        queue.append(('check', f'c04x_check {info["sym"]} {LEAN_TOL} ' + ' '.join(hier_tokens(ml.levels)),
+                      'ok' if not structural else 'fail', {'ctor': 'adaptive'},
+                      lambda what, fkey=None: ctx.violation('adaptive_sa_solver: ' + what, pcase, fkey=fkey)))
+        ctx.feat('lean-checked-hierarchy:adaptive')
+        if pending is None:
+            flush(ctx, queue)
 
 
-def bare_solver_case(ctx, rng):
-    """MultilevelSolver(levels) on levels without R: the default is R = P^H (multilevel.py:180-182)"""
+def bare_solver_case(ctx, rng, pending=None):
+    """MultilevelSolver(levels) on levels built by hand without R: the default is R = P^H (multilevel.py:180-182).
+    The coarse matrices are formed here as P^H A P (complex data: P of a reference hierarchy times 1 + 0.5i, so that
+    P^H differs from P^T), so the levels are a Galerkin hierarchy exactly when the solver fills in R = P^H: the
+    proved checker (extension E50) judges shapes, strict decrease, A_c = R A P and R = P^H on the solver's levels."""
     import pyamg
     from pyamg.multilevel import MultilevelSolver
     D, tags = gen_matrix(rng, 'sa', True)
@@ -1497,20 +1644,33 @@ def bare_solver_case(ctx, rng):
     except Exception:  # noqa: BLE001
         return
     levels = []
+    Acur = A
     for L in ref.levels:
         N = MultilevelSolver.Level()
-        N.A = L.A
+        N.A = Acur
         if hasattr(L, 'P'):
-            N.P = L.P * ((1 + 0.5j) if tags['complex'] else 1.0)
+            N.P = sp.csr_array(L.P) * ((1 + 0.5j) if tags['complex'] else 1.0)
+            if N.P.shape[0] != Acur.shape[0] or not N.P.shape[1] < N.P.shape[0]:
+                return
+            Acur = sp.csr_array(N.P.conj().T @ Acur @ N.P)
         levels.append(N)
     ml = MultilevelSolver(levels)
     ctx.feat('ctor:bare')
     ctx.case(key=_key('bare', D.tobytes()), nontrivial=len(levels) >= 2)
+    pcase = {'bare': True, 'A': pack(D)}
+    ok = True
     for l, L in enumerate(ml.levels[:-1]):
         if not hasattr(L, 'R') or not np.array_equal(dense(L.R), dense(L.P).conj().T):
-            ctx.violation(f'MultilevelSolver(levels): level {l} given without R does not get R = P^H',
-                          {'bare': True, 'A': pack(D)})
+            ctx.violation(f'MultilevelSolver(levels): level {l} given without R does not get R = P^H', pcase)
+            ok = False
             break
+    if all(hasattr(L, 'R') for L in ml.levels[:-1]) and all(np.isfinite(dense(L.A)).all() for L in ml.levels):
+        queue = pending if pending is not None else []
+        queue.append(('check', f'c04x_check herm {LEAN_TOL} ' + ' '.join(hier_tokens(ml.levels)), 'ok' if ok else 'fail',
+                      {'ctor': 'bare'}, lambda what, fkey=None: ctx.violation('MultilevelSolver(levels): ' + what, pcase, fkey=fkey)))
+        ctx.feat('lean-checked-hierarchy:bare')
+        if pending is None:
+            flush(ctx, queue)
 
 
 # ------------------------------------------------------------------------------------------------
@@ -1621,15 +1781,17 @@ def history_case(ctx, pending, calls):
 def run_cases(ctx, n, ctor=None):
     rng = ctx.np_rng
     pending = []
+    ctx.__dict__['_c04x'] = {'spent': 0.0, 'frac': 0.0}
     for t in range(n):
         if ctx.time_left() < 15:
             ctx.feat('budget-cut')
             break
+        ctx.__dict__.setdefault('_c04x', {'spent': 0.0, 'frac': 1.0})['frac'] = (t + 1) / n
         r = rng.random()
         if ctor is None and r < 0.04:
-            adaptive_case(ctx, rng)
+            adaptive_case(ctx, rng, pending)
         elif ctor is None and r < 0.06:
-            bare_solver_case(ctx, rng)
+            bare_solver_case(ctx, rng, pending)
         elif ctor is None and r < 0.18:
             history_case(ctx, pending, gen_history(rng, ctx.quick))
         else:
@@ -1641,6 +1803,7 @@ def run_cases(ctx, n, ctor=None):
 
 def run(ctx):
     levelize_correspondence(ctx)
+    filter_correspondence(ctx)
     run_cases(ctx, ctx.scale(1000, 36000))
 
 
